@@ -360,11 +360,12 @@ TOKCFGS = [
         "keyword-called-like-a-pattern",
         # the sign '!' and the word 'not' are two tokens: the pattern NOT is reported as '!', the keyword 'not' as NOT
         r"(?P<SPACE>\s+)|(?P<NOT>!)|(?P<W>[a-z]+)|(?P<EQ>=)|(?P<PCT>%)",
-        ['WORD', '!', 'NOT', '=', '%'],
-        {'WORD': ['a', 'bc', 'no', 'nott'], '!': ['!'], 'NOT': ['not'], '=': ['='], '%': ['%']},
+        # (... and the word 'end' is reported under the empty name)
+        ['WORD', '!', 'NOT', '=', '%', ''],
+        {'WORD': ['a', 'bc', 'no', 'nott'], '!': ['!'], 'NOT': ['not'], '=': ['='], '%': ['%'], '': ['end']},
         [" ", "\n", "  "],
         synonyms={'NOT': '!', 'W': 'WORD', 'EQ': '=', 'PCT': '%'},
-        keywords={('WORD', 'not'): 'NOT'},
+        keywords={('WORD', 'not'): 'NOT', ('WORD', 'end'): ''},
     ),
     TokCfg(
         "two-kinds-of-comments",
